@@ -5,7 +5,10 @@ import (
 	"math/rand"
 	"time"
 
+	tmproto "github.com/tendermint/tendermint/proto/tendermint/types"
 	"github.com/tendermint/tendermint/types"
+
+	"verif/chaingen"
 )
 
 // ---------------------------------------------------------------- scenario description (also the violation witness)
@@ -646,6 +649,256 @@ func genFwdRecipe(r *rand.Rand, k int, pool []*chainInfo) *scenario {
 		hc := *f.hdrs[target]
 		cd.hdr, cd.HdrFrom = &hc, "fork"
 	}
+	d.Calls = []callDesc{cd}
+	d.InitPerm = append([]int{0}, ids...)
+	for _, f := range sc.forks {
+		d.Forks = append(d.Forks, f.desc)
+	}
+	for _, q := range sc.provs {
+		d.Providers = append(d.Providers, q.desc)
+	}
+	return sc
+}
+
+// ---------------------------------------------------------------- padded commits
+
+// padSig signs one precommit slot with pv for (height, round, bid) at ts, labelled with addr.
+func padSig(chainID string, pv types.MockPV, addr []byte, h int64, round int32, bid types.BlockID, ts time.Time) types.CommitSig {
+	vote := &types.Vote{Type: tmproto.PrecommitType, Height: h, Round: round, BlockID: bid, Timestamp: ts, ValidatorAddress: addr}
+	pb := vote.ToProto()
+	if err := pv.SignVote(chainID, pb); err != nil {
+		panic(err)
+	}
+	vote.Signature = pb.Signature
+	return vote.CommitSig()
+}
+
+// buildPadded forges ONE light block at height th whose commit is "padded": the single colluding
+// validator K (less than 1/3 of the trusted set) appears in several for-the-block slots.
+//
+//	own = "fresh":     the header's own validator set is adversary-made: one heavy never-bonded key in slot 0
+//	                   (which alone gives it > 2/3 of that set) plus light fillers; K's signature sits in other slots
+//	own = "dupK":      the own set is K repeated (a hand-made set), every slot signed by K
+//	own = "canonical": the header keeps the genuine validator set of th (passes the adjacent hash link);
+//	                   K's signature is copied into the slots
+//	layout:            before | after | permuted (where K's slots sit relative to K's index in the trusted set)
+//	extra:             how many slots the commit has beyond the trusted set's size (fresh / dupK only)
+//	sameSig:           one signature copied, or a fresh signature (own timestamp) per slot
+func buildPadded(r *rand.Rand, ci *chainInfo, t0, th int64, K *types.Validator, num, den int64, own, layout string, extra int, sameSig bool, labelSlotOwner bool) *fork {
+	f := &fork{blocks: map[int64]*types.LightBlock{}, plan: map[int64]func() *types.LightBlock{}, hdrs: map[int64]*types.Header{}}
+	chainID := ci.ch.ChainID
+	trusted := ci.sets[t0]
+	pvK := ci.ch.Keys[string(K.Address)]
+	natural := 0
+	for i, v := range trusted.Validators {
+		if string(v.Address) == string(K.Address) {
+			natural = i
+		}
+	}
+	// copies of K needed so that copies*power(K) exceeds the trust level of the trusted set, plus one
+	need := int(trusted.TotalVotingPower()*num/(den*K.VotingPower)) + 2
+	canon := ci.lbs[th]
+	hdr := *canon.Header
+	hdr.AppHash = randHash(r)
+	var vals *types.ValidatorSet
+	size := trusted.Size() + extra
+	if size < need+natural+2 && layout == "after" {
+		size = need + natural + 2
+	}
+	if size < need+1 {
+		size = need + 1
+	}
+	var heavy types.MockPV
+	switch own {
+	case "fresh":
+		vs := make([]*types.Validator, 0, size)
+		hk := chaingen.Key(int64(ci.idx)*104729+th, 700000)
+		heavy = types.NewMockPVWithParams(hk, false, false)
+		vs = append(vs, types.NewValidator(hk.PubKey(), 1000000))
+		for j := 1; j < size; j++ {
+			vs = append(vs, types.NewValidator(chaingen.Key(int64(ci.idx)*104729+th, 700000+j).PubKey(), 1))
+		}
+		vals = types.NewValidatorSet(vs)
+	case "dupK":
+		vs := make([]*types.Validator, size)
+		for j := range vs {
+			vs[j] = &types.Validator{Address: K.Address, PubKey: K.PubKey, VotingPower: 10}
+		}
+		vals = &types.ValidatorSet{Validators: vs, Proposer: vs[0].Copy()}
+	default: // canonical
+		vals = ci.sets[th].Copy()
+		size = vals.Size()
+		hdr.DataHash = randHash(r)
+	}
+	vals.TotalVotingPower()
+	if own != "canonical" {
+		hdr.ValidatorsHash = vals.Hash()
+		hdr.NextValidatorsHash = vals.Hash()
+	}
+	bid := types.BlockID{Hash: hdr.Hash(), PartSetHeader: types.PartSetHeader{Total: 1, Hash: randHash(r)}}
+	round := canon.Commit.Round
+	base := hdr.Time.Add(500 * time.Millisecond)
+	one := padSig(chainID, pvK, K.Address, th, round, bid, base)
+	kSlot := func(j int) types.CommitSig {
+		cs := one
+		if !sameSig {
+			cs = padSig(chainID, pvK, K.Address, th, round, bid, base.Add(time.Duration(j)*time.Millisecond))
+		}
+		if labelSlotOwner && j < len(vals.Validators) {
+			cs.ValidatorAddress = vals.Validators[j].Address
+		}
+		return cs
+	}
+	sigs := make([]types.CommitSig, size)
+	for j := range sigs {
+		sigs[j] = types.NewCommitSigAbsent()
+	}
+	firstFree := 0
+	if own == "fresh" { // slot 0 belongs to the heavy invented key (own-set index 0 after sorting by power)
+		sigs[0] = padSig(chainID, heavy, vals.Validators[0].Address, th, round, bid, base)
+		firstFree = 1
+	}
+	var pos []int
+	switch {
+	case own == "dupK" || own == "canonical":
+		for j := 0; j < size; j++ {
+			pos = append(pos, j)
+		}
+	case layout == "before":
+		for j := firstFree; j < size && len(pos) < need; j++ {
+			pos = append(pos, j)
+		}
+	case layout == "after":
+		for j := int(max64(int64(natural+1), int64(firstFree))); j < size && len(pos) < need; j++ {
+			pos = append(pos, j)
+		}
+	default: // permuted
+		cand := r.Perm(size - firstFree)
+		for _, c := range cand {
+			if len(pos) < need {
+				pos = append(pos, c+firstFree)
+			}
+		}
+	}
+	for _, j := range pos {
+		sigs[j] = kSlot(j)
+	}
+	hc := hdr
+	f.blocks[th] = &types.LightBlock{SignedHeader: &types.SignedHeader{Header: &hc, Commit: types.NewCommit(th, round, bid, sigs)}, ValidatorSet: vals}
+	f.hdrs[th] = &hc
+	cp, tot := powerOf(trusted, map[string]bool{string(K.Address): true})
+	f.desc = forkDesc{Kind: fmt.Sprintf("padded commit (own set %s, K slots %s, %d slots for a trusted set of %d, K at trusted index %d in %d slots, same signature copied: %v, slots labelled with slot owner: %v)",
+		own, layout, size, trusted.Size(), natural, len(pos), sameSig, labelSlotOwner),
+		From: th, To: th, Class: "one validator below 1/3", Coalition: 1, PhiFrom: cp.String() + "/" + tot.String(), Heights: []int64{th}}
+	return f
+}
+
+// genPadRecipe: recipe family "padded commit" (see buildPadded).  Delivery:
+//
+//	0 primary + colluding witness serve it at a non-adjacent height (skipping mode)
+//	1 same, at an adjacent height with the genuine validator set (sequential mode, or skipping with target = root+1)
+//	2 the primary fails the target request; a witness is promoted and supplies it, another witness colludes
+//	3 honest primary; a witness serves it as the conflicting header (detector path), another witness is honest
+func genPadRecipe(r *rand.Rand, k int, pool []*chainInfo) *scenario {
+	ci := pool[(k*7+3)%len(pool)]
+	sc := &scenario{ci: ci}
+	d := &sc.desc
+	d.Stream, d.Case = "recipe-pad", k
+	d.Chain, d.ChainLen, d.Churn, d.Vals = ci.idx, ci.n, ci.churn, ci.nvals
+	n := ci.n
+	delivery := k % 4
+	tl := [][2]int64{{1, 3}, {1, 2}, {2, 3}}[(k/4)%3]
+	layout := []string{"before", "after", "permuted"}[(k/12)%3]
+	own := []string{"fresh", "dupK"}[(k/36)%2]
+	extra := []int{0, 1, 5}[(k/72)%3]
+	sameSig := (k/3)%2 == 0
+	d.Mode = "skipping"
+	d.Root = between(r, 1, n-6)
+	target := between(r, d.Root+2, min64(n, d.Root+40))
+	label := false
+	if delivery == 1 {
+		own = "canonical"
+		label = (k/8)%2 == 1
+		if (k/4)%2 == 0 {
+			d.Mode = "sequential"
+			target = between(r, d.Root+1, min64(n, d.Root+8))
+		} else {
+			target = d.Root + 1
+		}
+	}
+	if d.Mode == "sequential" {
+		tl = [2]int64{1, 3}
+	}
+	d.TrustNum, d.TrustDen = tl[0], tl[1]
+	period := time.Duration(n+50) * ci.interval * 2
+	d.PeriodMs = period.Milliseconds()
+	drift := 5 * time.Millisecond
+	d.DriftMs = 5
+	sc.par = params{chainID: ci.ch.ChainID, period: period, drift: drift, num: tl[0], den: tl[1]}
+	d.DeltaUs = 300
+	// K: a validator of the trusted set holding strictly less than 1/3
+	// (for the canonical-set variant: of the target's set, holding less than 1/3 there too if possible)
+	base := ci.sets[d.Root]
+	if own == "canonical" {
+		base = ci.sets[target]
+	}
+	var K *types.Validator
+	tot := base.TotalVotingPower()
+	for _, i := range r.Perm(base.Size()) {
+		v := base.Validators[i]
+		if v.VotingPower*3 < tot && (K == nil || r.Intn(2) == 0) {
+			K = v
+		}
+	}
+	if K == nil {
+		K = base.Validators[base.Size()-1]
+	}
+	sc.coalition = map[string]bool{string(K.Address): true}
+	f := buildPadded(r, ci, d.Root, target, K, tl[0], tl[1], own, layout, extra, sameSig, label)
+	sc.forks = append(sc.forks, f)
+	d.Recipe = fmt.Sprintf("padded commit, delivery %d: %s", delivery, f.desc.Kind)
+	now := ci.time(n).Add(2 * time.Second)
+	cd := callDesc{Op: []string{"verify_at", "verify_header"}[(k/5)%2], Height: target, now: now, NowMs: now.Sub(ci.ch.Opt.GenesisTime).Milliseconds()}
+	switch delivery {
+	case 0, 1:
+		p := sc.newProv(r, 0, "primary", "fork", ci.forkView(f))
+		p.reliable = true
+		w := sc.newProv(r, 1, "witness", "fork", ci.forkView(f))
+		w.reliable = true
+		sc.provs = []*prov{p, w}
+		if (k/16)%2 == 1 {
+			q := sc.newProv(r, 2, "witness", "silent", ci.canonView())
+			q.desc.Rules = []rule{{Act: "noresp", HLo: d.Root + 1}}
+			sc.provs = append(sc.provs, q)
+		}
+		hc := *f.hdrs[target]
+		cd.hdr, cd.HdrFrom = &hc, "fork"
+	case 2:
+		p := sc.newProv(r, 0, "primary", "flaky", ci.canonView())
+		p.desc.Rules = []rule{{Act: []string{"noresp", "notfound"}[(k/16)%2], HLo: target, HHi: target}}
+		w1 := sc.newProv(r, 1, "witness", "fork", ci.forkView(f))
+		w1.reliable = true
+		w2 := sc.newProv(r, 2, "witness", "fork", ci.forkView(f))
+		w2.reliable = true
+		sc.provs = []*prov{p, w1, w2}
+		hc := *f.hdrs[target]
+		cd.hdr, cd.HdrFrom = &hc, "fork"
+	default:
+		p := sc.newProv(r, 0, "primary", "honest", ci.canonView())
+		p.reliable = true
+		w1 := sc.newProv(r, 1, "witness", "fork", ci.forkView(f))
+		w1.reliable = true
+		w2 := sc.newProv(r, 2, "witness", "honest", ci.canonView())
+		w2.reliable = true
+		sc.provs = []*prov{p, w1, w2}
+		hc := *ci.lbs[target].Header
+		cd.hdr, cd.HdrFrom = &hc, "canonical"
+	}
+	ids := make([]int, 0, len(sc.provs)-1)
+	for i := 1; i < len(sc.provs); i++ {
+		ids = append(ids, i)
+	}
+	cd.Perm = append([]int{0}, nthPerm(ids, k/2)...)
 	d.Calls = []callDesc{cd}
 	d.InitPerm = append([]int{0}, ids...)
 	for _, f := range sc.forks {
